@@ -281,6 +281,9 @@ var spells = []struct{ name, expr, pre string }{
 	{"variable named falsey", `falsey`, ""},
 	{"variable named iffy", `iffy`, ""},
 	{"variable named elsewhere", `elsewhere`, ""},
+	// an unknown identifier written as a dotted name (only for the kind "unknown identifier")
+	{"member of an unknown name", `nosuchroot.Name`, ""},
+	{"member path of an unknown name", `nosuchroot.A.B`, ""},
 }
 
 type TruthCase struct {
@@ -360,6 +363,13 @@ func checkTruth(r *vk.Run, c TruthCase) *vk.Fail {
 			data[sp.expr] = k.mk()
 		}
 		spelling = sp.expr
+	case "member of an unknown name", "member path of an unknown name":
+		// a dotted name whose first name is bound nowhere is an unknown identifier like a bare one
+		if spelling != "v" || k.mk != nil || k.name != "unknown identifier" {
+			r.Exclude("value-needed")
+			return nil
+		}
+		spelling = sp.expr
 	case "result of a template function", "result of a template function without return keyword":
 		// the value is passed on: an unset name cannot be passed (that is an error by C05, not a truth value)
 		if v, ok := k.value(); spelling == "nil" || k.nilResult || (ok && v == nil) || (spelling == "v" && !ok) {
@@ -392,7 +402,7 @@ func checkTruth(r *vk.Run, c TruthCase) *vk.Fail {
 		spelling, counted = sp.expr, false
 	}
 	src := sp.pre + fmt.Sprintf(p.tmpl, spelling)
-	if strings.HasPrefix(p.name, "unknown, then") && (spelling == "v" || strings.HasPrefix(sp.name, "variable named")) && (k.mk == nil || k.mk() == nil) {
+	if strings.HasPrefix(p.name, "unknown, then") && (spelling == "v" || strings.HasPrefix(sp.name, "variable named") || strings.HasSuffix(sp.name, "of an unknown name")) && (k.mk == nil || k.mk() == nil) {
 		// these positions pass the value on: an unset name cannot be passed (that is an error by C05, not a truth value)
 		r.Exclude("value-needed")
 		return nil
@@ -1176,7 +1186,7 @@ func checkNestSrc(r *vk.Run, prog []model.Node, src string, c NestCase) *vk.Fail
 	return nil
 }
 
-const rule = "(A, exhaustive) 122 value kinds (nil, bools, nil slices / maps / funcs / chans (truthy: not nil pointers), strings incl. \"false\"/\"0\"/\"nil\"/newline/NUL, trusted HTML, typed nil pointers incl. nil pointers to pointers, to iterators and stored through an interface type, non-nil pointers to zero values and to nil pointers, values that PRINT as nothing (Stringer / HTMLer / error with empty text: truthy, they are not the empty string), unknown identifier, nil context value, every numeric width at 0, NaN, -0, complex, uintptr, empty and non-empty slices/arrays/maps/structs, func, iterator, time, results of helpers with 16 result signatures; 5 kinds the statement is silent about - empty values of other string types, nil unsafe.Pointer - are checked for uniformity only, against the plain if) x 61 test positions (if, else-if, second and fifth else-if, !, !!, !!!, !(!v), parenthesised, &&/|| on either side, v && v, v || v, three-operand and mixed ! && || forms, emitted ! !! && ||, inside for / function / block helper / contentFor and their combinations, inside the then / else / else-if block of another chain, returned from a function, a chain written in one tag, silent if, compact and multi-line spellings, five sequences in which a name is first tested while unknown and then bound, five positions where the same statement has forgiven another unknown identifier before / after / on every pass of a loop, under 20 levels of else / then blocks) x 14 ways the value reaches the site (variable, variables named like keyword prefixes - nilx falsey iffy elsewhere -, literal, helper call, map index, slice index, struct field, field of an indexed element / of a map element / of a call result, method result, result of a template function): the truth value must be the same everywhere and equal the table in the property; a tested helper call is evaluated exactly once. plus 13 conditions that are arithmetic / concatenation expressions x 6 positions. (A2, exhaustive + random) one set of six test sites evaluated for several values in turn - loop body over a slice of the values (nil elements too), template function called once per value, template function reading an outer variable that is rebound by let / by assignment between the calls, ONE parsed template executed once per value with fresh data (nil and unset too; sites at top level or in a loop), ONE parsed template and ONE context whose value is Set before each execution: every pair (A, B) of the value kinds tested A, B, A (quick: unordered pairs, thorough: ordered), and random sequences of 2-8 kinds. (B, exhaustive) every chain of 1..4 branches x every assignment of 9 condition values x with/without else x 10 placements (top, loop, function, block helper, if in loop, else block, else-if block, a script in one tag assigning a variable, a function returning from the branches, block helper in loop), each condition wrapped in a recording helper: output = block of the first truthy branch, conditions evaluated = exactly the prefix up to it; for 1..3 branches also with empty / output-tag / mixed blocks, with every later condition replaced by a helper that fails when evaluated, and with a bare first condition; chains of 5..12 branches with the first truthy condition at every position. (B2, exhaustive + random) ONE chain evaluated for a sequence of rows of truth assignments (conditions read r[j] or the field r.A of the row, bare or through the recording helper) as loop body / function body / parsed template executed per row: every ordered pair of assignments of 2 branches over 4 values as A, B, A, and random 1..4 branches x 2..6 rows over 10 values. (B3, exhaustive) a chain and the five test sites after a condition that called a template function whose body fails on an unknown identifier (7 values of a variable x 7 arguments bound to the parameter of the same name x 5 failing bodies x 6 uses x top level / loop / function): the render may fail; if it goes on, every site reads the variable as before the call and the chain's else-if tests the variable. (C, random) nested if/else-if/else chains whose conditions are trees of !, &&, || and parentheses (depth <= 3, only the parentheses the grammar needs) over recording calls, arithmetic and concatenation, inside loops, template functions called twice and block helpers, compared with the reference interpreter incl. the evaluation trace; a quarter of them as one parsed template executed with the data, with flipped data, and with the data again. Non-trivial: every matrix cell, chain and row sequence is (distinct by cell / chain / template)."
+const rule = "(A, exhaustive) 122 value kinds (nil, bools, nil slices / maps / funcs / chans (truthy: not nil pointers), strings incl. \"false\"/\"0\"/\"nil\"/newline/NUL, trusted HTML, typed nil pointers incl. nil pointers to pointers, to iterators and stored through an interface type, non-nil pointers to zero values and to nil pointers, values that PRINT as nothing (Stringer / HTMLer / error with empty text: truthy, they are not the empty string), unknown identifier, nil context value, every numeric width at 0, NaN, -0, complex, uintptr, empty and non-empty slices/arrays/maps/structs, func, iterator, time, results of helpers with 16 result signatures; 5 kinds the statement is silent about - empty values of other string types, nil unsafe.Pointer - are checked for uniformity only, against the plain if) x 61 test positions (if, else-if, second and fifth else-if, !, !!, !!!, !(!v), parenthesised, &&/|| on either side, v && v, v || v, three-operand and mixed ! && || forms, emitted ! !! && ||, inside for / function / block helper / contentFor and their combinations, inside the then / else / else-if block of another chain, returned from a function, a chain written in one tag, silent if, compact and multi-line spellings, five sequences in which a name is first tested while unknown and then bound, five positions where the same statement has forgiven another unknown identifier before / after / on every pass of a loop, under 20 levels of else / then blocks) x 16 ways the value reaches the site (an unknown identifier also as a dotted name whose first name is bound nowhere; variable, variables named like keyword prefixes - nilx falsey iffy elsewhere -, literal, helper call, map index, slice index, struct field, field of an indexed element / of a map element / of a call result, method result, result of a template function): the truth value must be the same everywhere and equal the table in the property; a tested helper call is evaluated exactly once. plus 13 conditions that are arithmetic / concatenation expressions x 6 positions. (A2, exhaustive + random) one set of six test sites evaluated for several values in turn - loop body over a slice of the values (nil elements too), template function called once per value, template function reading an outer variable that is rebound by let / by assignment between the calls, ONE parsed template executed once per value with fresh data (nil and unset too; sites at top level or in a loop), ONE parsed template and ONE context whose value is Set before each execution: every pair (A, B) of the value kinds tested A, B, A (quick: unordered pairs, thorough: ordered), and random sequences of 2-8 kinds. (B, exhaustive) every chain of 1..4 branches x every assignment of 9 condition values x with/without else x 10 placements (top, loop, function, block helper, if in loop, else block, else-if block, a script in one tag assigning a variable, a function returning from the branches, block helper in loop), each condition wrapped in a recording helper: output = block of the first truthy branch, conditions evaluated = exactly the prefix up to it; for 1..3 branches also with empty / output-tag / mixed blocks, with every later condition replaced by a helper that fails when evaluated, and with a bare first condition; chains of 5..12 branches with the first truthy condition at every position. (B2, exhaustive + random) ONE chain evaluated for a sequence of rows of truth assignments (conditions read r[j] or the field r.A of the row, bare or through the recording helper) as loop body / function body / parsed template executed per row: every ordered pair of assignments of 2 branches over 4 values as A, B, A, and random 1..4 branches x 2..6 rows over 10 values. (B3, exhaustive) a chain and the five test sites after a condition that called a template function whose body fails on an unknown identifier (7 values of a variable x 7 arguments bound to the parameter of the same name x 5 failing bodies x 6 uses x top level / loop / function): the render may fail; if it goes on, every site reads the variable as before the call and the chain's else-if tests the variable. (C, random) nested if/else-if/else chains whose conditions are trees of !, &&, || and parentheses (depth <= 3, only the parentheses the grammar needs) over recording calls, arithmetic and concatenation, inside loops, template functions called twice and block helpers, compared with the reference interpreter incl. the evaluation trace; a quarter of them as one parsed template executed with the data, with flipped data, and with the data again. Non-trivial: every matrix cell, chain and row sequence is (distinct by cell / chain / template)."
 
 func setup(t *testing.T) *vk.Run {
 	r := vk.Start(t, "C07", rule,
